@@ -30,7 +30,7 @@ def getNat (kv : KV) (k : String) : Option Nat := (getS kv k).bind parseNat?
 def parseKind : String → Option Kind
   | "static" => some .static | "random" => some .random | "erdos" => some .erdos | "disk" => some .disk
   | "null" => some .null | "mf" => some .mf | "msm" => some .msm | "embedding" => some .embedding
-  | "maternal" => some .maternal | _ => none
+  | "maternal" => some .maternal | "randomplain" => some .randomPlain | _ => none
 
 def lookupRat (ks : List Nat) (vs : List Rat) (dflt : Rat) (u : Nat) : Rat :=
   match ks.idxOf? u with
@@ -83,6 +83,15 @@ def choiceFor (s : St) (a b : List Nat) (durs acts : List Rat) : Choice :=
                          participant := s.net.participant, debut := s.net.debut }
   match s.net.kind with
   | .random => { base with nOf := fun u => a.count u, target := b }
+  | .randomPlain =>
+      -- one count per active position: the eligible agents' own counts, then everything that is left over (the filler
+      -- slots) on the first position beyond them
+      let born := p.auids.filter (fun u => p.alive u && decide (0 < p.age u))
+      let headCounts := born.map (fun u => if u = 0 then (a.takeWhile (· == 0)).length else a.count u)
+      let rest := a.length - headCounts.sum
+      let extra := p.auids.length - born.length
+      let tailCounts := if extra = 0 then [] else rest :: List.replicate (extra - 1) 0
+      { base with counts := headCounts ++ tailCounts, target := b }
   | .erdos =>
       let born := p.auids.filter (fun u => decide (0 < p.age u))
       match s.net.variant with
@@ -129,6 +138,10 @@ def stepLine (_ : Unit) (line : String) : Unit × String :=
               pure (match t.append c with
                 | .ok t' => showTable t' ++ s!" wf={showBool t'.wfB}"
                 | .error e => showErr e)
+          | "poolrm" => do
+              let uids ← getNats kv "uids"
+              let members ← getNats kv "a"
+              pure s!"ok {showList toString (setdiff members uids)}"
           | "check" =>
               pure s!"ok wf={showBool t.wfB} active={showBool (t.endpointsIn s.pop.auids)} mono={showBool t.monogamous} alive={showBool (t.endpoints.all s.pop.alive)}"
           | "avail" => do
